@@ -60,13 +60,14 @@ def _one(res, case, n, W, ratio, slope, ms, ans):
     p = Probe(cfg)
     p.ll.f = hole  # instrumented likelihood evaluates the hole target
     beta0_iter = [0]
-    rec = {"logz0": [], "first_pos": None, "neg_inf": None, "choice_calls": 0}
+    rec = {"logz0": [], "first_pos": None, "neg_inf": None, "choice_calls": 0, "draws": {}}
 
     def h_rand(t, *a, **k):
         if a == (n, 1):
             it = beta0_iter[0]
             beta0_iter[0] += 1
             m = ms[it] if it < W else (0,) * n
+            rec["draws"].setdefault(p.iters, []).append(m)  # which sampler iteration consumed this scripted batch
             return _U(n, m, it)
         return OwnedRandom.PASS
 
@@ -100,15 +101,29 @@ def _one(res, case, n, W, ratio, slope, ms, ans):
     cc = {"kind": "masks", "n": n, "W": W, "slope": slope, "only": [list(m) for m in ms], "answers": False}
     label = f"n={n} W={W} masks={[''.join(map(str, m)) for m in ms]}"
     all_inf = any(all(m) for m in ms)
-    fr = [1.0 - sum(m) / n for m in ms]
-    nontriv = (not all_inf) and any(any(m) for m in ms)
+    nontriv = any(any(m) for m in ms)
     res.outcome((n, W, slope, ms, ans), nontrivial=nontriv)
     if all_inf:
         k = [i for i, m in enumerate(ms) if all(m)][0]
         if rec["neg_inf"] is not None or (p.exc is not None and beta0_iter[0] <= W):
             what = f"-inf particles stored ({rec['neg_inf']})" if rec["neg_inf"] else f"raised {p.exc!r}"
             res.violate("hole:all-inf-batch", f"{label}: warm-up batch {k + 1} has no finite draw: {what}", cc)
-        return
+            return
+    # supported fraction per sampler iteration: finite draws of the batch that was kept / all draws made for it
+    # (a batch without any finite draw is drawn again; the discarded draws count in the denominator)
+    fr = []
+    for it in sorted(rec["draws"]):
+        group = rec["draws"][it]
+        kept = group[-1]
+        if all(kept):
+            continue
+        fr.append((n - sum(kept)) / (n * len(group)))
+    W_eff = sum(1 for it in rec["draws"] if not all(rec["draws"][it][-1]))
+    fr = fr[: len(rec["logz0"])] if all_inf else fr
+    if all_inf:
+        W = min(len(rec["logz0"]), len(fr))
+        if W == 0:
+            return
     if rec["neg_inf"] is not None:
         res.violate("hole:minus-inf-stored", f"{label}: a -inf/nan log-likelihood was stored at {rec['neg_inf']}", cc)
         return
